@@ -59,11 +59,19 @@ def _run(hist, final, w):
     env._reset_all()
     ds0, twin = _build(w)
     want = h.to_proto(twin[final]).SerializeToString(deterministic=True)
+    want_list = h.to_proto([twin[2], twin[3], twin[1]]).SerializeToString(deterministic=True)
     ds, mods = _build(w)
     for op, mask, rev, aslist in hist:
         if mask == 0:
             continue
         _call(op, mods, mask, rev, aslist)
+    # list-valued calls are history-independent too: nothing elaborated earlier may drop out
+    if h.to_proto([mods[2], mods[3], mods[1]]).SerializeToString(deterministic=True) != want_list:
+        WHY["why"] = "export of a list of modules differs from the twin without history"
+        return False
+    if [m is e for m, e in zip(h.elaborate([mods[2], mods[0]]), [mods[2], mods[0]])] != [True, True]:
+        WHY["why"] = "elaborate(list) did not return the modules it was given"
+        return False
     pkg = h.to_proto(mods[final])
     env.COUNTS["reached"] += 1
     if pkg.SerializeToString(deterministic=True) != want:
